@@ -29,6 +29,10 @@ REQUIRED = ['views-read-twice', 'field-labels-that-are-valid-positions', 'inputs
 EXHAUSTIVE = {'quick': False, 'thorough': False}
 
 CELLS = [None, 1, 1.0, True, 2, 'a', b'a', 'b', (1, 2), gen.D(2020, 1, 1), 0, False, '']
+# pairs of values that are different (not ==, so never the same row) but that an ordering could be tempted to rank together: a date
+# and the datetime of its midnight, text and bytes of the same letters, a time of day and a datetime, the empty values
+NEIGHBOURS = [(gen.D(2020, 1, 1), gen.DT(2020, 1, 1, 0, 0)), ('a', b'a'), ('', b''), (gen.T(0, 0), gen.DT(2020, 1, 1, 0, 0)), (None, ''),
+              (gen.D(2020, 1, 1), '2020-01-01'), ((1, 2), (1, 2.5)), (gen.DT(2020, 1, 1, 12, 30), gen.D(2020, 1, 1)), (1, '1')]
 
 
 def _battery_rows():
@@ -48,6 +52,9 @@ def cases(ctx):
     for i in range(ctx.pick(40000, 600000)):
         nf = rng.randint(1, 3) if rng.random() < 0.85 else rng.randint(4, 5)
         pool = rng.sample(CELLS, 4)
+        if i % 6 == 0:
+            p1, p2 = rng.sample(NEIGHBOURS, 2)
+            pool = list(p1) + (list(p2) if i % 12 == 0 else [])
         if nf > 1 and rng.random() < 0.5:
             rowpool = [[rng.choice(pool) for _ in range(nf)] for _ in range(3)]
         else:
